@@ -258,7 +258,11 @@ impl Sources {
                 self.scenario_event(f, r.as_deref(), s, *retries, ev)
             }
         };
-        Ok(Event::new(c))
+        // a synthetic, early timestamp: metadata travels with the event, so whatever reaches
+        // an inner writer must still carry it (a fresh `SystemTime::now()` is decades later)
+        let mut ev = Event::new(c);
+        ev.at = std::time::UNIX_EPOCH + std::time::Duration::from_secs(1_000);
+        Ok(ev)
     }
 }
 
